@@ -51,16 +51,50 @@ theorem prologue_nofire (s : State) (t : Nat) (h : s.chswcd ≠ 1) :
       show s.chswcd ≠ 1
       exact h
 
+theorem prologue_nofire_deb (s : State) (t : Nat) (h : s.chswcd ≠ 1) : (prologue s t).1.deb = s.deb := by
+  simp only [prologue]
+  by_cases hbad : (decide (s.time > 0) && (decide (t < s.time + 25000) || decide (t > s.time + 50000))) = true
+  · simp [hbad]
+  · simp only [hbad]
+    by_cases h0 : s.chswcd > 0
+    · have h1 : ¬ (s.chswcd - 1 = 0) := by omega
+      simp [h0, h1]
+    · simp [h0]
+
+theorem pending_congr (cfg : Cfg) (c : Carrier) (s s' : State) (hn : s'.net = s.net) (hd : s'.deb = s.deb) :
+    pending cfg c s' ↔ pending cfg c s := by
+  unfold pending; rw [hn, hd]
+
+/-- after an announcement on carrier `c` nothing is pending anywhere, provided (per-carrier shape only) nothing
+    else was pending before: no XDS name and no other carrier -/
+theorem markDone_idle (cfg : Cfg) (c : Carrier) (v : Nat) (s : State)
+    (h : cfg.perCarrier = true → (s.net.cycle ≠ 1 ∧ ∀ c', c' ≠ c → cycOf c' s.deb ≠ 1)) :
+    (markDone cfg c v s).net.cycle ≠ 1 ∧ ∀ c', cfg.perCarrier = true → cycOf c' (markDone cfg c v s).deb ≠ 1 := by
+  cases hp : cfg.perCarrier
+  · refine ⟨by rw [markDone_cycle_shared cfg c v s hp]; decide, fun _ e => by cases e⟩
+  · have hh := h hp
+    refine ⟨by rw [markDone_net_cycle cfg c v s hp]; exact hh.1, ?_⟩
+    intro c' _
+    simp only [markDone, hp, if_true, cycOf_setAnn]
+    by_cases hc : c' = c
+    · rw [hc, cycOf_setCyc_self]; decide
+    · rw [cycOf_setCyc_other c c' _ _ hc]; exact hh.2 c' hc
+
 /-- Station change across a gap.  From a state with an identified station and a countdown that is idle or
     has at least three frames to go: a tick with ANY time stamp (a gap arms the countdown), the new CNI `b`,
-    another tick with any time stamp, `b` again (known id, different from the old one).  The change raises
+    another tick with any time stamp, `b` again (id different from the old one; known to the table, or any id
+    once the callers pass "identified", F35 repaired).  The change raises
     exactly one NETWORK event, empties the cache and cancels the countdown; over any regular history that
     follows in which every reception equals what is now stored, nothing more is announced, the countdown
-    stays idle (no second reset 40 frames later) and every page cached for the new station stays cached. -/
+    stays idle (no second reset 40 frames later) and every page cached for the new station stays cached.
+    In the per-carrier shape "nothing else is pending" is a hypothesis (`hper`): `b` is not the value this carrier
+    announced last, no XDS name and no other carrier waits for its repeat - the shared cycle made the last two
+    automatic (and F11 possible). -/
 theorem change_over_gap (cfg : Cfg) (s : State) (t0 t1 : Nat) (l1 l2 : Line) (c : Carrier) (b : Nat) (quiet : List Atom)
     (hcd : s.chswcd = 0 ∨ 3 ≤ s.chswcd)
     (h1 : lineCni s.mask l1 = some (c, b)) (h2 : lineCni s.mask l2 = some (c, b)) (hb : b ≠ cniOf c s.net)
-    (hid : (cfg.lk c b).1 ≠ s.net.nuid) (hold : s.net.nuid ≠ 0) (hnew : (cfg.lk c b).1 ≠ 0)
+    (hid : (cfg.lk c b).1 ≠ s.net.nuid) (hold : s.net.nuid ≠ 0) (hnew : cfg.chswIdent = true ∨ (cfg.lk c b).1 ≠ 0)
+    (hper : cfg.perCarrier = true → b ≠ annOf c s.deb ∧ s.net.cycle ≠ 1 ∧ ∀ c', c' ≠ c → cycOf c' s.deb ≠ 1)
     (hreg : RegularFrom (runAtoms cfg s [.tick t0, .line t0 l1, .tick t1, .line t1 l2]).1.time quiet)
     (hq : ∀ a ∈ quiet, SameAsStored (runAtoms cfg s [.tick t0, .line t0 l1, .tick t1, .line t1 l2]).1.net s.mask a) :
     countNetwork (runAtoms cfg s ([.tick t0, .line t0 l1, .tick t1, .line t1 l2] ++ quiet)).2 = 1 ∧
@@ -74,34 +108,45 @@ theorem change_over_gap (cfg : Cfg) (s : State) (t0 t1 : Nat) (l1 l2 : Line) (c 
   -- tick t0
   have hne1 : s.chswcd ≠ 1 := by omega
   have p0 := prologue_nofire s t0 hne1
-  generalize hsa : (prologue s t0).1 = sa at p0
+  have p0d := prologue_nofire_deb s t0 hne1
+  generalize hsa : (prologue s t0).1 = sa at p0 p0d
   have p0e : (prologue s t0).2 = [] := p0.1
   have sacd : sa.chswcd ≠ 1 := p0.2.2.2.2.2 hcd
   -- line l1: the new value differs from the stored one
-  have k1 := rxLine_cniStep cfg t0 sa l1 (lineCni_some_kind _ _ (c, b) (show lineCni sa.mask l1 = some (c, b) by rw [p0.2.2.2.1]; exact h1))
+  have hl1 : lineCni sa.mask l1 = some (c, b) := by rw [p0.2.2.2.1]; exact h1
+  have k1 := rxLine_cniStep cfg t0 sa l1 (lineCni_some_kind _ _ (c, b) hl1)
+  have k1d := rxLine_cniStep_deb cfg t0 sa l1 (lineCni_some_kind _ _ (c, b) hl1)
   obtain ⟨x1, hev1, hex1⟩ := k1.2.2.2.2.2.2.2.2
   have hb' : b ≠ cniOf c sa.net := by rw [p0.2.1]; exact hb
-  rw [show lineCni sa.mask l1 = some (c, b) by rw [p0.2.2.2.1]; exact h1] at k1 hev1
-  simp only [cniStep, cniRx_change cfg.lk c b sa hb'] at k1 hev1
-  generalize hsb : (rxLine cfg t0 sa l1).1 = sb at k1
+  rw [hl1] at k1 hev1 k1d
+  simp only [cniStep, cniRx_change cfg c b sa hb'] at k1 hev1 k1d
+  generalize hsb : (rxLine cfg t0 sa l1).1 = sb at k1 k1d
   -- tick t1
-  have sbcd : sb.chswcd ≠ 1 := by rw [k1.2.2.1]; exact sacd
+  have sbcd : sb.chswcd ≠ 1 := by rw [k1.2.2.1, markChange_chswcd]; exact sacd
   have p1 := prologue_nofire sb t1 sbcd
-  generalize hsc : (prologue sb t1).1 = sc at p1
+  have p1d := prologue_nofire_deb sb t1 sbcd
+  generalize hsc : (prologue sb t1).1 = sc at p1 p1d
   have p1e : (prologue sb t1).2 = [] := p1.1
   -- line l2: the station change
-  have hscnet : sc.net = { setCni c s.net b with cycle := 1 } := by rw [p1.2.1, k1.1, p0.2.1]
+  have hscnet : sc.net = (markChange cfg c b sa).net := by rw [p1.2.1, k1.1]
+  have hscdeb : sc.deb = (markChange cfg c b sa).deb := by rw [p1d, k1d]
   have hscmask : sc.mask = s.mask := by rw [p1.2.2.2.1, k1.2.2.2.1, p0.2.2.2.1]
-  have q := rxLine_cniStep cfg t1 sc l2 (lineCni_some_kind _ _ (c, b) (show lineCni sc.mask l2 = some (c, b) by rw [hscmask]; exact h2))
+  have hl2 : lineCni sc.mask l2 = some (c, b) := by rw [hscmask]; exact h2
+  have q := rxLine_cniStep cfg t1 sc l2 (lineCni_some_kind _ _ (c, b) hl2)
+  have qd := rxLine_cniStep_deb cfg t1 sc l2 (lineCni_some_kind _ _ (c, b) hl2)
   obtain ⟨x2, hev2, hex2⟩ := q.2.2.2.2.2.2.2.2
-  rw [show lineCni sc.mask l2 = some (c, b) by rw [hscmask]; exact h2] at q hev2
-  simp only [cniStep] at q hev2
-  have f := cniRx_switch_facts cfg.lk c b sc
-    (by rw [hscnet, cniOf_cycle, cniOf_setCni_self])
-    (by rw [hscnet])
-    (by rw [hscnet]; show (cfg.lk c b).1 ≠ (setCni c s.net b).nuid; rw [setCni_nuid]; exact hid)
-    (by rw [hscnet]; show (setCni c s.net b).nuid ≠ 0; rw [setCni_nuid]; exact hold) hnew
-  generalize hsd : (rxLine cfg t1 sc l2).1 = sd at q
+  rw [hl2] at q hev2 qd
+  simp only [cniStep] at q hev2 qd
+  have g1 : b = cniOf c sc.net := by rw [hscnet, markChange_cniOf_self]
+  have g2 : pending cfg c sc := by
+    rw [pending_congr cfg c _ sc hscnet hscdeb, markChange_pending_self]
+    cases hp : cfg.perCarrier
+    · exact Or.inl rfl
+    · right; rw [p0d]; exact (hper hp).1
+  have g3 : (cfg.lk c b).1 ≠ sc.net.nuid := by rw [hscnet, markChange_nuid, p0.2.1]; exact hid
+  have g4 : sc.net.nuid ≠ 0 := by rw [hscnet, markChange_nuid, p0.2.1]; exact hold
+  have f := cniRx_switch_facts cfg c b sc g1 g2 g3 g4 hnew
+  generalize hsd : (rxLine cfg t1 sc l2).1 = sd at q qd
   -- the four atoms together
   have hrun : runAtoms cfg s [.tick t0, .line t0 l1, .tick t1, .line t1 l2] =
       (sd, (prologue s t0).2 ++ ((rxLine cfg t0 sa l1).2 ++ ((prologue sb t1).2 ++ ((rxLine cfg t1 sc l2).2 ++ [])))) := by
@@ -110,18 +155,30 @@ theorem change_over_gap (cfg : Cfg) (s : State) (t0 t1 : Nat) (l1 l2 : Line) (c 
     rw [hrun]
     simp only [p0e, p1e, hev1, hev2, List.nil_append, List.append_nil]
     rw [countNetwork_append, countNetwork_extra x1 hex1, countNetwork_append, f.1, countNetwork_extra x2 hex2]
-  have hsdnet : sd.net = (cniRx cfg.lk c b sc).1.net := q.1
-  have hsdcycle : sd.net.cycle ≠ 1 := by rw [hsdnet, f.2.2.2.2.1]; decide
+  have hsdnet : sd.net = (cniRx cfg c b sc).1.net := q.1
+  have hsddeb : sd.deb = (cniRx cfg c b sc).1.deb := qd
+  have hsw := cniRx_switch cfg c b sc g1 g2 g3 g4 hnew
+  have hidle : sd.net.cycle ≠ 1 ∧ ∀ c', cfg.perCarrier = true → cycOf c' sd.deb ≠ 1 := by
+    rw [hsdnet, hsddeb, hsw]
+    apply markDone_idle
+    intro hp
+    have hh := hper hp
+    refine ⟨?_, ?_⟩
+    · show sc.net.cycle ≠ 1
+      rw [hscnet, markChange_net_per cfg c b sa hp]
+      have : (setCni c sa.net b).cycle = sa.net.cycle := by cases c <;> rfl
+      rw [this, p0.2.1]; exact hh.2.1
+    · intro c' hc
+      show cycOf c' sc.deb ≠ 1
+      rw [hscdeb]
+      simp only [markChange, hp, if_true]
+      rw [cycOf_setCyc_other c c' _ _ hc, p0d]; exact hh.2.2 c' hc
   have hsdcd : sd.chswcd = 0 := by
-    rw [q.2.2.1]
-    have := f  -- the switch resets, the reset leaves the countdown idle
-    rw [cniRx_switch cfg.lk c b sc (by rw [hscnet, cniOf_cycle, cniOf_setCni_self]) (by rw [hscnet])
-      (by rw [hscnet]; show (cfg.lk c b).1 ≠ (setCni c s.net b).nuid; rw [setCni_nuid]; exact hid)
-      (by rw [hscnet]; show (setCni c s.net b).nuid ≠ 0; rw [setCni_nuid]; exact hold) hnew]
+    rw [q.2.2.1, hsw, markDone_chswcd]
   have hsdmask : sd.mask = s.mask := by rw [q.2.2.2.1, hscmask]
   rw [hrun] at hreg hq
   simp only [] at hreg hq
-  have st := stable_run cfg sd.net s.mask hsdcycle quiet sd rfl hsdcd hsdmask hreg hq
+  have st := stable_run cfg sd.net sd.deb s.mask hidle.1 hidle.2 quiet sd rfl rfl hsdcd hsdmask hreg hq
   have e1 : ∀ q1 : List Atom, (runAtoms cfg s ([.tick t0, .line t0 l1, .tick t1, .line t1 l2] ++ q1)).1 = (runAtoms cfg sd q1).1 := by
     intro q1; rw [runAtoms_append, hrun]
   refine ⟨?_, ?_, ?_, ?_, ?_, ?_⟩
@@ -132,6 +189,6 @@ theorem change_over_gap (cfg : Cfg) (s : State) (t0 t1 : Nat) (l1 l2 : Line) (c 
   · rw [e1]; exact st.2.2.1
   · intro q1 q2 e
     rw [e1, e1]
-    exact st.2.2.2.2 q1 q2 e
+    exact st.2.2.2.2.1 q1 q2 e
 
 end Zvbi.Net
